@@ -1,0 +1,10 @@
+//go:build verif
+
+package sweeper
+
+import "context"
+
+// VerifSweepOnce runs exactly one sweeper pass (build tag verif only).
+func (s *Sweeper) VerifSweepOnce(ctx context.Context) error {
+	return s.sweep(ctx)
+}
